@@ -101,6 +101,10 @@ Cond(cls, el) == [k |-> "cond", cls |-> cls, el |-> el]   \* cls: seq of <<test,
 WithHandler(h, e) == [k |-> "withhandler", h |-> h, e |-> e]
 Def(n, e)   == [k |-> "def", n |-> n, e |-> e]            \* top-level or internal define
 Body(ds, e) == [k |-> "body", ds |-> ds, e |-> e]         \* internal defines then expression
+\* D9 (named deviation, Steel accepts what R7RS leaves undefined): a body may interleave definitions and
+\* expressions; all names of the body are bound first (unassigned), then the items run top to bottom
+\* (compiler/passes/begin.rs convert_exprs_to_let keeps the source order of defines and expressions)
+Body2(items, e) == [k |-> "body2", items |-> items, e |-> e]
 Reset(e)    == [k |-> "reset", e |-> e]                   \* (reset e)
 Shift(n, e) == [k |-> "shift", n |-> n, e |-> e]          \* (shift n e)
 MkParam(e)  == [k |-> "mkparam", e |-> e]                     \* (make-parameter e)
@@ -215,6 +219,7 @@ R(e) ==
     [] e.k = "parameterize" -> "(parameterize ([" \o R(e.p) \o " " \o R(e.v) \o "]) " \o R(e.b) \o ")"
     [] e.k = "def" -> "(define " \o Nm(e.n) \o " " \o R(e.e) \o ")"
     [] e.k = "body" -> RSeq(e.ds) \o " " \o R(e.e)
+    [] e.k = "body2" -> RSeq(e.items) \o " " \o R(e.e)
     [] OTHER -> "#<?expr>"
 
 RUnit(u) == Join([i \in 1..Len(u) |-> R(u[i])], " ")
@@ -245,6 +250,7 @@ Mentions(e, n) ==
     [] e.k = "parameterize" -> Mentions(e.p, n) \/ Mentions(e.v, n) \/ Mentions(e.b, n)
     [] e.k = "def" -> Mentions(e.e, n)
     [] e.k = "body" -> MentionsAny(e.ds, n) \/ Mentions(e.e, n)
+    [] e.k = "body2" -> MentionsAny(e.items, n) \/ Mentions(e.e, n)
     [] OTHER -> FALSE
 
 \* R7RS leaves a reference to a name before its definition in the same body
@@ -673,6 +679,16 @@ EvalStep ==
             /\ store' = store \o [i \in 1..Len(names) |-> Unbound]
             /\ env' = env2
             /\ ctrl' = Begin([i \in 1..Len(e.ds) |-> [k |-> "init", n |-> e.ds[i].n, e |-> e.ds[i].e]] \o <<e.e>>)
+            /\ UNCHANGED <<kont, mode>>
+       [] e.k = "body2" ->   \* D9: definitions and expressions interleaved, top to bottom
+            LET defs == SelectSeq(e.items, LAMBDA it : it.k = "def")
+                names == [i \in 1..Len(defs) |-> defs[i].n]
+                env2 == BindAll(env, names, Len(store)) IN
+            /\ store' = store \o [i \in 1..Len(names) |-> Unbound]
+            /\ env' = env2
+            /\ ctrl' = Begin([i \in 1..Len(e.items) |-> IF e.items[i].k = "def"
+                                                           THEN [k |-> "init", n |-> e.items[i].n, e |-> e.items[i].e]
+                                                           ELSE e.items[i]] \o <<e.e>>)
             /\ UNCHANGED <<kont, mode>>
        [] e.k = "set" -> /\ ctrl' = e.e /\ kont' = Push([f |-> "set", n |-> e.n, env |-> env])
                          /\ UNCHANGED <<env, store, mode>>
